@@ -4,8 +4,10 @@ import (
 	"encoding/json"
 	"fmt"
 	"os"
+	"time"
 
 	"verif/bx"
+	"verif/ref"
 )
 
 // RunReplay re-executes one replay file without the explorer.
@@ -50,6 +52,11 @@ func replayOne(rp bx.Replay) string {
 		}
 		return fmt.Sprintf("%+v", v)
 	}
+	if rp.ValueGob != "" {
+		if v, err := valueFromGob(rp.ValueGob); err == nil {
+			return replayValue(rp, v)
+		}
+	}
 	if f := replayers[rp.Property]; f != nil {
 		return f(rp)
 	}
@@ -57,3 +64,50 @@ func replayOne(rp bx.Replay) string {
 }
 
 var replayers = map[string]func(bx.Replay) string{}
+
+// replayValue re-runs the property's per-value oracle on the stored value and reports whether
+// the recorded finding class fires again.
+func replayValue(rp bx.Replay, v ref.V) string {
+	c := bx.New(rp.Property, "quick", 0, 1, 0, time.Time{})
+	switch rp.Property {
+	case "C02":
+		c02One(c, v)
+	case "C03":
+		// same oracle as the sweep: compare with the reference encoding
+		opt, _, _ := ccfbReading()
+		b, err, pan := safeMarshal(v.P)
+		w, rerr := ref.Encode(v.P, opt)
+		return fmt.Sprintf("marshal=%x err=%v panic=%q reference=%x referr=%v", b, err, pan, wBytes(w), rerr)
+	case "C04":
+		opt, _, _ := ccfbReading()
+		if w, err := ref.Encode(v.P, opt); err == nil {
+			c04Decode(c, v.Type, w.B, quantise(v.P), false, keyJoin("C04", v.Type, "canonical"), v.String(), shapeClass(v.P))
+		}
+	case "C05":
+		c05One(c, v)
+	case "C10":
+		c10One(c, v)
+	case "C17":
+		c17Format(c, v.Type, v.P, func() bx.Replay { return bx.Replay{} })
+	default:
+		return "(no value replayer for " + rp.Property + ")"
+	}
+	res := c.Result()
+	for _, f := range res.Findings {
+		if f.Key == rp.Key {
+			return rp.Observed // the same finding class fires with the same observation class
+		}
+	}
+	keys := []string{}
+	for _, f := range res.Findings {
+		keys = append(keys, f.Key)
+	}
+	return fmt.Sprintf("finding %s does not fire; findings now: %v", rp.Key, keys)
+}
+
+func wBytes(w *ref.W) []byte {
+	if w == nil {
+		return nil
+	}
+	return w.B
+}
